@@ -1,6 +1,7 @@
 """C12 - Skein hash, MAC and tree hash equal the Skein 1.3 specification."""
 import itertools
 from mc.engine import Sub, InternalError
+from mc.checks.firstuse import firstuse_sub
 from mc.common import ramp, expander, zero_words
 from mc.refs import skein as RS
 
@@ -253,8 +254,23 @@ def selftest():
         raise InternalError('reference self-test failed: %r' % (e,))
 
 
+PROP_ = 'C12'
+
+
+def fu_targets():
+    m = expander(150, 3)
+    t = {}
+    for Nb in NBS:
+        t['skein%d' % Nb] = ((lambda Nb: lambda: mk(Nb, Nb)(m))(Nb), RS.skein(Nb, Nb, m))
+    t['skein256 out=224 bitlen'] = (lambda: mk(256, 224)(m, bitlen=1003), RS.skein(256, 224, m, bitlen=1003))
+    t['skein512 mac'] = (lambda: mk(512, 512, key=b'key', prs=b'prs', nonce=b'n')(m), RS.skein(512, 512, m, key=b'key', prs=b'prs', nonce=b'n'))
+    t['skein256 tree'] = (lambda: mk(256, 256, Yl=1, Yf=1, Ym=3)(m * 3), RS.skein(256, 256, m * 3, Yl=1, Yf=1, Ym=3))
+    t['skein1024 out=2056'] = (lambda: mk(1024, 2056)(m), RS.skein(1024, 2056, m))
+    return t
+
+
 def subchecks():
-    return [
+    return [firstuse_sub(PROP_, fu_targets, every=2),
         Sub('lengths', pts_len, run_len, engine='P',
             bound='Skein-256: every bit length 0..2Nb+9; Skein-512/1024: every L mod 8 at byte lengths {0,1,Nb/8-1,Nb/8,Nb/8+1,2Nb/8,2Nb/8+1,4Nb/8} (thorough: every bit length 0..2Nb+9 / 0..Nb+137); bitlen given (also when a multiple of 8) and omitted; containers 1 byte / 1 block longer; 2 data patterns'),
         Sub('output-lengths', pts_out, run_out, engine='P',
